@@ -36,6 +36,8 @@ GEN_GROUPS = ["Stoch", "EngineCpp"]
 RULE = ("random networks (1..4 species, 0..3 reversible reactions, orders 0..3, per-environment constants and diffusion "
         "coefficients with zeros = walls, chemostats) x grids (periodic / reflecting) / graphs (heterogeneous volumes, parallel "
         "edges) x {euler, tauleap, gillespie} x seeds; one evaluation = one (sample, conservation vector) pair; "
+        "plus a magnitude stream: 10^7..10^10 (odd) molecules per cell, stoichiometric changes 1..5, rate constants scaled to a target of "
+        "10^3..1.9e9 firings of one reaction per cell and leap (every Poisson mean < 2^31), so that |sto| x firings passes 2^31 / 2^32; "
         "non-trivial = the vector has a non-zero total and the state changed; distinct by (script, engine, sample, vector)")
 ASSUMPTIONS = [
     "Euler: float drift of a conserved total is bounded by 1e-9 x sum |c_s x| per step (the theorem is the exact identity over Q)",
@@ -160,8 +162,172 @@ def gen_case(ctx, k):
             "edge": info["edge"] if kind == "grid" else list(info["edge"])}
 
 
+# ---------------------------------------------------------------------------------------------
+# magnitudes: populations above 2^24 / 2^31 / 2^32 and MANY firings per leap
+# ---------------------------------------------------------------------------------------------
+# Conservation is a statement about `x += sto * n`: with populations of 10^9..10^10 molecules per cell and a coarse
+# leap, one reaction fires 10^8..2·10^9 times in one cell in one step, so `|sto| * n` (stoichiometric changes of 2, 3, 4
+# on either side) passes 2^31 and 2^32 while each factor alone still fits a C int.  The amounts are odd, so that a
+# rounding through a narrower type shows too.  Every Poisson mean is kept below 2^31 (the known defect of
+# `std::poisson_distribution<int>` for larger means is not this property's subject): the generator scales the rate
+# constants to a target number of firings per leap, and the child re-checks every mean before every leap.
+BIG_AMOUNTS = [2 ** 24 + 1, 999999937, 1500000001, 2 ** 31 + 1, 3 * 10 ** 9 + 1, 2 ** 32 + 3, 2 ** 33 + 5, 10 ** 10 + 1]
+POISSON_MEAN_CAP = 2.0e9      # < 2^31 = 2.147e9, 3000 standard deviations below it
+
+
+def _comb(side, amounts):
+    out = Fraction(1)
+    for s, nu in enumerate(side):
+        for q in range(nu):
+            out *= (amounts[s] - q)
+    return out
+
+
+def gen_big(ctx, k):
+    rng = ctx.rng
+    kind = "grid" if k % 2 == 0 else "graph"
+    nenv = rng.choice([1, 1, 2])
+    space, info = stoch_gen.rand_space(rng, kind=kind, nenv=nenv, max_cells=3)
+    n = info["n"]
+    net = stoch_gen.rand_network(rng, nenv=nenv, ns=rng.choice([2, 2, 3]), nr=0, chem_p=0.0)
+    for sp_ in net["species"]:
+        # slow diffusion: D x / h^2 dt stays far below the Poisson cap also in the smallest cells, yet molecules move
+        sp_["D"] = float(rng.choice([0, Fraction(1, 1024), Fraction(1, 256)]))
+    labs = [s["label"] for s in net["species"]]
+    ns = len(labs)
+    vols = [Fraction(info["edge"]) ** 3] * n if kind == "grid" else [Fraction(h) ** 3 for h in info["edge"]]
+    dt = float(rng.choice([Fraction(1, 2048), Fraction(1, 64), Fraction(1, 8), Fraction(1, 10)]))
+    eqs = []
+    for q in range(rng.choice([1, 1, 1, 2])):
+        a = rng.choice(labs)
+        others = [l for l in labs if l != a]
+        b = rng.choice(others)
+        c = rng.choice(labs)
+        m = rng.choice([2, 3, 3, 4])
+        eqs.append(rng.choice(["%s -> %d %s" % (a, m, b), "%s -> %d %s" % (a, m, b), "%d %s -> %s" % (min(m, 3), a, b),
+                               "%s + %s -> %d %s" % (a, b, m, c) if c not in (a, b) else "%s -> %d %s + %s" % (a, m, b, b),
+                               "%s -> %s" % (a, b) if rng.random() < 0.3 else "%s -> %d %s" % (a, m, b), "2 %s -> %d %s" % (a, m + 1, b)]))
+    # amounts: one magnitude per species, odd, slightly different in every cell; the substrates of the first reaction are
+    # mostly rich enough for ~10^9 firings per leap
+    first_lhs = parse_side(eqs[0].split(" -> ")[0], labs)
+    per_species = []
+    for s_ in range(ns):
+        pool = BIG_AMOUNTS
+        if first_lhs[s_] and rng.random() < 0.75:
+            pool = BIG_AMOUNTS[4:]
+        elif rng.random() < 0.5:
+            pool = BIG_AMOUNTS[2:]
+        per_species.append(rng.choice(pool))
+    state = [float(per_species[s] + 2 * rng.randint(0, 500)) for s in range(ns) for _ in range(n)]
+    reacs = []
+    for q, eq in enumerate(eqs):
+        l, r = eq.split(" -> ")
+        lhs, rhs = parse_side(l, labs), parse_side(r, labs)
+        # target number of firings of the forward direction in the busiest cell during one leap
+        if q == 0 and rng.random() < 0.7:
+            target = math.exp(rng.uniform(math.log(2.0 ** 28), math.log(1.9e9)))
+        else:
+            target = math.exp(rng.uniform(math.log(1e3), math.log(2.0 ** 28)))
+
+        def kfor(side, target):
+            order = sum(side)
+            worst = Fraction(0)
+            lim = None
+            for i in range(n):
+                am = [Fraction(state[s * n + i]) for s in range(ns)]
+                worst = max(worst, _comb(side, am) * vols[i] ** (1 - order))
+                for s in range(ns):
+                    if side[s]:
+                        hold = am[s] / side[s]
+                        lim = hold if lim is None else min(lim, hold)
+            # never (on average) more than 60 % of what the poorest cell holds
+            tgt = min(Fraction(target), Fraction(3, 5) * lim) if lim is not None else Fraction(target)
+            return float(tgt / (worst * Fraction(dt))) if worst > 0 else 0.0
+        kp = kfor(lhs, target)
+        km = 0.0
+        if rng.random() < 0.35:
+            km = kfor(rhs, math.exp(rng.uniform(math.log(1e2), math.log(1e7))))
+        if rng.random() < 0.3 and nenv > 1:
+            kp = {"default": kp}
+        reacs.append({"eq": eq, "k+": kp, "k-": km})
+    net["reactions"] = reacs
+    return {"big": True, "net": net, "space": space, "kind": kind, "seed": rng.randint(0, 2 ** 31 - 1), "state": state, "tmax": 1e9,
+            "mode": "none", "dt": dt, "edge": info["edge"] if kind == "grid" else list(info["edge"])}
+
+
+def child_run_big(case, lib):
+    """runs inside the sandboxed child: like stoch_gen.child_run, but amounts may be as large as doubles hold integers
+    exactly (2^52), and before every tau-leap step every Poisson mean is checked against POISSON_MEAN_CAP with the
+    harness's own tabulation of the channels (the run stops there; what was recorded so far is judged)"""
+    import ctypes
+    import numpy as np
+    import strengths as st
+    from strengths.librdengine import LibRDEngine
+    system = stoch_gen.build_system(case["net"], case["space"])
+    system.state = list(case["state"])
+    option = case["option"]
+    script = st.RDScript(system, t_sample=[0], time_step=case["dt"], t_max=case["tmax"], sampling_policy="on_iteration",
+                         rng_seed=case["seed"], init_state_processing=case.get("mode", "none"))
+    arr = engine_io.system_arrays(script, option != "euler")
+    arr.pop("us", None)
+    rates = stoch_gen.Rates(arr) if option == "tauleap" else None
+    dtq = frac(case["dt"])
+    eng = LibRDEngine(lib, option=option, requires_molecules=(option != "euler"))
+    common.draws_clear(lib)
+    eng.setup(script)
+    n_init = len(common.draws_get(lib))
+    size = script.system.state_size()
+    buf = (ctypes.c_double * size)()
+    it = 0
+    stopped = None
+    while it < case["max_iter"]:
+        lib.engineexport_get_state(buf)
+        cur = list(buf)
+        if any(v != v or abs(v) > 2.0 ** 52 for v in cur):
+            stopped = "amounts beyond 2^52"
+            break
+        if any(v < 0 for v in cur):
+            stopped = "negative amount"
+            break
+        if rates is not None:
+            worst = max([a for (a, _e, _d) in rates.channels([frac(v) for v in cur])] or [0])
+            if worst * dtq >= Fraction(POISSON_MEAN_CAP):
+                stopped = "Poisson mean would pass the cap"
+                break
+        if not eng.iterate():
+            break
+        it += 1
+    draws = common.draws_get(lib)[n_init:]
+    traj = eng.get_output()
+    complete = bool(eng.is_complete())
+    eng.finalize()
+    ns, nc = traj.nspecies(), traj.ncells()
+    data = np.asarray(traj.data.value, dtype=float).reshape((traj.nsamples(), ns * nc))
+    return {"t": [float(v) for v in traj.t.value], "x": [[float(v) for v in row] for row in data],
+            "draws": [[k, a, b, r] for (k, a, b, r) in draws], "arr": arr, "complete": complete, "iterations": it,
+            "accessor_diff": None, "stopped": stopped}
+
+
+def child_case(case, lib):
+    if case.get("big"):
+        return child_run_big(case, lib)
+    return stoch_gen.child_run_seq(case, lib)
+
+
+def big_cases(ctx, nsys):
+    out = []
+    for k in range(nsys):
+        b = gen_big(ctx, k)
+        for option in ("tauleap", "gillespie", "euler"):
+            c = dict(b)
+            c["option"] = option
+            c["max_iter"] = {"euler": 12, "tauleap": 6, "gillespie": 40}[option]
+            out.append(c)
+    return out
+
+
 def small(case):
-    return {k: case[k] for k in ("net", "space", "kind", "option", "seed", "dt", "tmax", "state", "max_iter", "edge", "before", "mode", "units", "same_object", "mutate_accessors") if k in case}
+    return {k: case[k] for k in ("net", "space", "kind", "option", "seed", "dt", "tmax", "state", "max_iter", "edge", "before", "mode", "units", "same_object", "mutate_accessors", "big") if k in case}
 
 
 def totals(c, x, n, ns):
@@ -267,6 +433,9 @@ def run(ctx):
             c["dt"] = 1 / 1024 if option == "euler" else 1 / 2048
             c["max_iter"] = {"euler": 40, "tauleap": 25, "gillespie": 120}[option]
             cases.append(c)
+    # populations of 10^7 .. 10^10 molecules per cell with up to 1.9e9 firings of one reaction per leap (see gen_big);
+    # run FIRST (the time budget cuts the tail of the list), generated last (the older streams keep their random inputs)
+    cases = big_cases(ctx, ctx.n(14, 120)) + cases
     per_script_model = ctx.n(12, 60)
     chunk = 45
     for c0 in range(0, len(cases), chunk):
@@ -276,7 +445,7 @@ def run(ctx):
         part = cases[c0:c0 + chunk]
         for c_ in part:
             c_["mutate_accessors"] = True
-        results = stoch_gen.run_batch("stoch_gen", "child_run_seq", part, kind="shim", timeout=ctx.n(20, 120))
+        results = stoch_gen.run_batch("props.c02", "child_case", part, kind="shim", timeout=ctx.n(20, 120))
         ops, meta = [], []
         for ci, (case, res) in enumerate(zip(part, results)):
             if res is None:
@@ -302,7 +471,21 @@ def run(ctx):
                 ctx.count("engine_object_reused")
                 if case["before"][0].get("fail"):
                     ctx.count("engine_object_reused_after_" + case["before"][0]["fail"])
-            if case.get("mode") == "none":
+            if case.get("big"):
+                ctx.count("big_amounts_scripts_" + option)
+                if res.get("stopped"):
+                    ctx.count("big_amounts_run_stopped: " + res["stopped"])
+                if option == "tauleap" and res["draws"]:
+                    top = max(int(d[3]) for d in res["draws"])
+                    ctx.count("big_amounts_tauleap_max_firings_per_leap_" + ("ge_2^31/4" if top >= 2 ** 29 else "ge_2^24" if top >= 2 ** 24 else "lt_2^24"))
+                    msto = max(abs(v) for v in arr["sto"]) if arr["sto"] else 0
+                    if top * msto >= 2 ** 31:
+                        ctx.count("big_amounts_tauleap_scripts_with_sto_x_firings_ge_2^31")
+                    if top * msto >= 2 ** 32:
+                        ctx.count("big_amounts_tauleap_scripts_with_sto_x_firings_ge_2^32")
+                if max(abs(v) for v in res["x"][0]) >= 2 ** 31:
+                    ctx.count("big_amounts_scripts_with_cell_amount_ge_2^31")
+            elif case.get("mode") == "none":
                 ctx.count("none_mode_fractional_state")
             if case.get("mode") in ("Poisson", "redist"):
                 ctx.count("resampled_initial_state_" + option)
@@ -425,10 +608,36 @@ def run(ctx):
                      "float drift of the Euler engine is checked against 1e-9 relative per step, not proved")
 
 
+def search(ctx):
+    """failing-input search (an anchor / theorem / the correspondence is broken and no failing input is known yet): the
+    magnitude stream at thorough size on the tau-leap and Gillespie engines (the oracle only), then the ordinary streams
+    are repeated under further seeds by the runner"""
+    if ctx.extra.get("searched"):
+        return
+    ctx.extra["searched"] = True
+    known = set(common.known_findings(ID)[0])
+    rounds = 0
+    while ctx.time_left() > 15 and rounds < 4 and not [v for v in ctx.violations if v["key"] not in known]:
+        rounds += 1
+        cases = [c for c in big_cases(ctx, 90) if c["option"] != "euler"]
+        results = stoch_gen.run_batch("props.c02", "child_case", cases, kind="shim", timeout=20)
+        for case, res in zip(cases, results):
+            if res is None or res.get("hang") or "crash" in res or "exception" in res:
+                continue
+            ctx.count("search_big_amounts_scripts_" + case["option"])
+            arr = res["arr"]
+            ns = arr["ns"]
+            n = len(arr["chem"]) // ns
+            vectors, _free = conservation_vectors(arr, case["net"])
+            if vectors:
+                check_totals(ctx, case, res, vectors, n, ns)
+    ctx.notes.append("search(): %d extra rounds of 90 systems with 10^7..10^10 molecules per cell and up to 1.9e9 firings per leap" % rounds)
+
+
 def replay(ctx, rec):
     case = rec.get("case", rec)
-    base = {k: case[k] for k in ("net", "space", "kind", "option", "seed", "dt", "tmax", "state", "max_iter", "edge", "before", "mode", "units", "same_object", "mutate_accessors") if k in case}
-    res = stoch_gen.run_batch("stoch_gen", "child_run_seq", [base], kind="shim", timeout=60)[0]
+    base = {k: case[k] for k in ("net", "space", "kind", "option", "seed", "dt", "tmax", "state", "max_iter", "edge", "before", "mode", "units", "same_object", "mutate_accessors", "big") if k in case}
+    res = stoch_gen.run_batch("props.c02", "child_case", [base], kind="shim", timeout=60)[0]
     if res is None or res.get("hang") or "crash" in res or "exception" in res:
         return False, {"case": base, "impl": res}
     if res.get("accessor_diff"):
